@@ -218,19 +218,81 @@ LineFillCase(x) ==
       fin == Final(p, r0, "ramp", 256, 64)
   IN CaseRec("LineFill", p, r0, "ramp", 256, fin, {"t0", "t1", "t2", "t3"}, 64 .. 127, Tags(p, fin), [o1 |-> x[1], o2 |-> x[2]])
 
-Cases == CASE Family = "Shadow" -> ShadowCases [] Family = "Call" -> CallCases [] Family = "LineFill" -> LineFillCases
+(* ---------------------- Repo: the repository's own programs ------------------- *)
+(* array-sum, bubble-sort, string-copy, string-length and prime-number of res/*.asm,  *)
+(* transcribed to abstract instructions, run from many more inputs than the suite     *)
+(* uses and compared on the WHOLE final state (the suite reads one register or a few  *)
+(* bytes).  These programs are inside the envelope by construction.                   *)
+RepoRegs == {"ra", "a0", "a1", "a2", "t0", "t1", "t2", "t3", "t4", "t5"}
+RR(a0, a1, a2) == [r \in RepoRegs |-> CASE r = "a0" -> FromInt(a0) [] r = "a1" -> FromInt(a1) [] r = "a2" -> FromInt(a2) [] OTHER -> Zero32]
+B(op, a, b, t) == I(op, "zero", a, b, 0, t)
+J(t) == I("j", "zero", "zero", "zero", 0, t)
+WordsAt(base, vals) ==      \* memory contents: 32-bit little-endian words from `base`
+  [a \in base .. (base + 4 * Len(vals) - 1) |-> Bytes(FromInt(vals[((a - base) \div 4) + 1]))[((a - base) % 4) + 1]]
+BytesAt(base, bs) == [a \in base .. (base + Len(bs) - 1) |-> bs[a - base + 1]]
+
+ArraySum == << Li("t0", 0), Li("t1", 0),
+               B("bge", "t1", "a1", 9), I("slli", "t2", "t1", "zero", 2, 0), AddI("t2", "a0", "t2"), Lw("t2", "t2", 0),
+               AddI("t0", "t0", "t2"), Addi("t1", "t1", 1), I("jal", "zero", "zero", "zero", 0, 2),
+               I("mv", "a0", "t0", "zero", 0, 0), Ret >>
+BubbleSort == << Li("t0", 0), Li("t1", 1),
+                 B("bge", "t1", "a1", 13), I("slli", "t3", "t1", "zero", 2, 0), AddI("t3", "a0", "t3"),
+                 Lw("t4", "t3", -4), Lw("t5", "t3", 0), B("ble", "t4", "t5", 11),
+                 Li("t0", 1), Sw("t4", "t3", 0), Sw("t5", "t3", -4),
+                 Addi("t1", "t1", 1), J(2),
+                 B("bnez", "t0", "zero", 0), Ret >>
+StringCopy == << Li("t0", 0),
+                 B("bge", "t0", "a2", 9), AddI("t1", "a1", "t0"), Lb("t1", "t1", 0), B("beqz", "t1", "zero", 9),
+                 AddI("t2", "a0", "t0"), Sb("t1", "t2", 0), Addi("t0", "t0", 1), J(1),
+                 B("bge", "t0", "a2", 14), AddI("t1", "a0", "t0"), Sb("zero", "t1", 0), Addi("t0", "t0", 1), J(9),
+                 Ret >>
+StringLength == << Li("t0", 0),
+                   AddI("t1", "t0", "a0"), Lb("t1", "t1", 0), B("beqz", "t1", "zero", 6), Addi("t0", "t0", 1), J(1),
+                   Sw("t0", "zero", 0), Ret >>
+PrimeNumber == << Lw("t0", "zero", 0), Addi("t1", "zero", 2), I("div", "t1", "t0", "t1", 0, 0), Addi("t1", "t1", 1), Addi("t2", "zero", 2),
+                  B("bge", "t2", "t1", 10), I("rem", "t3", "t0", "t2", 0, 0), B("beq", "t3", "zero", 12), Addi("t2", "t2", 1), J(5),
+                  Addi("t0", "zero", 1), J(14),
+                  Addi("t0", "zero", 0), J(14),
+                  Addi("t1", "zero", 4), Sb("t0", "t1", 0), Addi("a0", "t1", 0), Addi("ra", "zero", 0), Ret >>
+
+Perm(n, k) == [i \in 1 .. n |-> ((i * (7 + 2 * k) + 3 * k) % 23) - 9]      \* pseudo-random words incl. negatives and repeats
+Str(len, k) == [i \in 1 .. len |-> ((i * 11 + k * 5) % 120) + 1] \o <<0>>  \* non-zero bytes then the terminator
+RepoCases ==
+  {<<"sum", n, k>> : n \in (IF Size = "large" THEN {0, 1, 2, 5, 16, 17, 33, 40} ELSE {0, 1, 5, 17}), k \in {0, 1}}
+  \cup {<<"sort", n, k>> : n \in (IF Size = "large" THEN {1, 2, 3, 5, 8, 12} ELSE {1, 2, 5}), k \in (IF Size = "large" THEN 0 .. 3 ELSE {0, 1})}
+  \cup {<<"copy", len, n>> : len \in (IF Size = "large" THEN {0, 1, 7, 20, 70} ELSE {0, 3, 20}), n \in (IF Size = "large" THEN {0, 1, 5, 20, 24, 80} ELSE {0, 5, 24})}
+  \cup {<<"len", len, k>> : len \in (IF Size = "large" THEN {0, 1, 2, 30, 63, 64, 65, 130} ELSE {0, 1, 30, 65}), k \in {0}}
+  \cup {<<"prime", n, k>> : n \in (IF Size = "large" THEN 2 .. 60 ELSE {2, 3, 4, 9, 17, 25, 49, 53}), k \in {0}}
+RepoCase(x) ==
+  LET kind == x[1]
+      p == CASE kind = "sum" -> ArraySum [] kind = "sort" -> BubbleSort [] kind = "copy" -> StringCopy
+             [] kind = "len" -> StringLength [] kind = "prime" -> PrimeNumber
+      r0 == CASE kind = "sum" -> RR(0, x[2], 0) [] kind = "sort" -> RR(0, x[2], 0) [] kind = "copy" -> RR(256, 0, x[3])
+              [] kind = "len" -> RR(8, 0, 0) [] kind = "prime" -> RR(0, 0, 0)
+      m0 == CASE kind = "sum" -> WordsAt(0, Perm(x[2], x[3])) [] kind = "sort" -> WordsAt(0, Perm(x[2], x[3]))
+              [] kind = "copy" -> BytesAt(0, Str(x[2], 1)) [] kind = "len" -> BytesAt(8, Str(x[2], 2))
+              [] kind = "prime" -> WordsAt(0, <<x[2]>>)
+      fin == FinalM(p, r0, m0, "zero", 512, 6000)
+      \* the class predicates are quadratic in the length of the run; the only repository programs that
+      \* fall into a finding class are string-length and string-copy (a branch on a just-loaded byte with work in its shadow)
+      tags == IF kind \in {"len", "copy"} THEN {"shadow_of_slow_branch"} ELSE {}
+  IN [CaseRec("Repo", p, r0, "zero", 512, fin, {}, {}, tags, [kind |-> kind, a |-> x[2], b |-> x[3]]) EXCEPT !.mem0 = m0]
+
+Cases == CASE Family = "Shadow" -> ShadowCases [] Family = "Repo" -> RepoCases [] Family = "Call" -> CallCases [] Family = "LineFill" -> LineFillCases
            [] Family = "RegDep" -> RegDepCases [] Family = "Tail" -> TailCases
            [] Family = "MemDep" -> MemDepCases [] Family = "MemWalk" -> WalkCases [] Family = "Err" -> ErrCases
            [] Family = "Timing" -> TimingCases
-MkCase(x) == CASE Family = "Shadow" -> ShadowCase(x) [] Family = "Call" -> CallCase(x) [] Family = "LineFill" -> LineFillCase(x) [] Family = "RegDep" -> RegDepCase(x) [] Family = "Tail" -> TailCase(x)
+MkCase(x) == CASE Family = "Shadow" -> ShadowCase(x) [] Family = "Repo" -> RepoCase(x) [] Family = "Call" -> CallCase(x) [] Family = "LineFill" -> LineFillCase(x) [] Family = "RegDep" -> RegDepCase(x) [] Family = "Tail" -> TailCase(x)
                [] Family = "MemDep" -> MemDepCase(x) [] Family = "MemWalk" -> WalkCase(x) [] Family = "Err" -> ErrCase(x)
                [] Family = "Timing" -> TimingCase(x)
 
 (* several initial states so that TLC's workers share the (expensive) MemWalk evaluations *)
-Parts == IF Family = "MemWalk" THEN Mixes \X {1, 2, 4} ELSE {<<>>}
+Parts == IF Family = "MemWalk" THEN Mixes \X {1, 2, 4}
+         ELSE IF Family = "Repo" THEN {<<k, m>> : k \in {"sum", "sort", "copy", "len", "prime"}, m \in 0 .. 2} ELSE {<<>>}
 Init == phase = "gen" /\ c \in {[fam |-> "none", part |-> p] : p \in Parts}
 Next == /\ phase = "gen" /\ phase' = "done"
-        /\ \E x \in Cases : (Family = "MemWalk" => <<x[1], x[2]>> = c.part) /\ LET k == MkCase(x) IN k.exp.status \in {"ret", "end", "err"} /\ c' = k
+        /\ \E x \in Cases : (Family = "MemWalk" => <<x[1], x[2]>> = c.part)
+                             /\ (Family = "Repo" => <<x[1], x[2] % 3>> = c.part) /\ LET k == MkCase(x) IN k.exp.status \in {"ret", "end", "err"} /\ c' = k
 Spec == Init /\ [][Next]_vars
 Emit == phase = "done" => PrintT(ToJson(c))
 =======================================================================
